@@ -223,6 +223,12 @@ type CutSpec struct {
 	// StartBlocks, when set, are additional/alternative entry blocks (paths
 	// begin at their first instruction).
 	StartBlocks []*ssa.BasicBlock
+	// NoLift disables the lifting of gates and sinks through same-package helpers.
+	NoLift bool
+	// LiftSinks: a call of a same-package helper that may execute a sink
+	// instruction is a sink too (opt-in: the sink predicate must not also match
+	// what the gate function itself does).
+	LiftSinks bool
 }
 
 // Hit is a sink reached without passing the gate, with a block path witness.
@@ -259,17 +265,81 @@ func Ungated(spec CutSpec) []Hit {
 		seen[fn.Blocks[0]] = true
 	}
 	hitSeen := map[ssa.Instruction]bool{}
+	// gates and sinks survive being moved into a same-package helper: a call of a helper all of
+	// whose (successful) paths execute a gate instruction is a gate; a call of a helper that may
+	// execute a sink instruction is a sink
+	gateMemo, sinkMemo := map[*ssa.Function]bool{}, map[*ssa.Function]bool{}
+	helperOf := func(in ssa.Instruction) *ssa.Function {
+		if spec.NoLift {
+			return nil
+		}
+		ci, ok := in.(ssa.CallInstruction)
+		if !ok {
+			return nil
+		}
+		if _, isGo := in.(*ssa.Go); isGo {
+			return nil
+		}
+		g := ci.Common().StaticCallee()
+		if g == nil || g == fn || len(g.Blocks) == 0 || g.Pkg == nil || fn.Pkg == nil || g.Pkg != fn.Pkg || !InModuleFn(g) {
+			return nil
+		}
+		return g
+	}
+	liftedGate := func(in ssa.Instruction) bool {
+		g := helperOf(in)
+		if g == nil || spec.GateInstr == nil {
+			return false
+		}
+		if v, ok := gateMemo[g]; ok {
+			return v
+		}
+		gateMemo[g] = false
+		res := g.Signature.Results()
+		onlySucc := res.Len() > 0 && IsErrorType(res.At(res.Len()-1).Type())
+		v := MustDo(g, func(x ssa.Instruction) bool {
+			switch x.(type) {
+			case *ssa.Return, *ssa.If, *ssa.Jump, *ssa.Panic:
+				return false
+			}
+			return spec.GateInstr(x)
+		}, 2, onlySucc, InModuleFn)
+		gateMemo[g] = v
+		return v
+	}
+	liftedSink := func(in ssa.Instruction) bool {
+		if !spec.LiftSinks {
+			return false
+		}
+		g := helperOf(in)
+		if g == nil || spec.Sink == nil {
+			return false
+		}
+		if v, ok := sinkMemo[g]; ok {
+			return v
+		}
+		sinkMemo[g] = false
+		v := MayDo(g, func(x ssa.Instruction) bool {
+			switch x.(type) {
+			case *ssa.Return, *ssa.If, *ssa.Jump, *ssa.Panic, *ssa.RunDefers:
+				return false
+			}
+			return spec.Sink(x)
+		}, 1, InModuleFn)
+		sinkMemo[g] = v
+		return v
+	}
 	for len(q) > 0 {
 		it := q[0]
 		q = q[1:]
 		blocked := false
 		for i := it.start; i < len(it.b.Instrs); i++ {
 			in := it.b.Instrs[i]
-			if spec.Sink != nil && spec.Sink(in) && !hitSeen[in] {
+			if spec.Sink != nil && (spec.Sink(in) || liftedSink(in)) && !hitSeen[in] {
 				hitSeen[in] = true
 				hits = append(hits, Hit{in, append([]int(nil), it.path...)})
 			}
-			if spec.GateInstr != nil && spec.GateInstr(in) {
+			if spec.GateInstr != nil && (spec.GateInstr(in) || liftedGate(in)) {
 				blocked = true
 				break
 			}
